@@ -13,6 +13,7 @@ from pandapower.timeseries import DFData, OutputWriter
 from pandapower.control import ConstControl
 
 ID = "C13"
+CASE_WEIGHT = 3   # relative cost of one case (pool sizing)
 LEVEL = "model_checking"
 RULE = ("state = (net object, position in the step list); per net (gas tree, water mesh) ALL profile vectors of length 3 "
         "(quick) / 4 (thorough) over the letter alphabet {low, mid, high demand, infeasible demand, feeder switched off} x "
